@@ -676,7 +676,6 @@ fn jaeger_batch(st: &mut St, sink: &UdpSink, batch: Vec<SpanRecord>, split_rules
 /// Returns None when the batch was decided (held or violation recorded), Some(missing positions
 /// among the expected spans) when an in-order subsequence arrived.
 fn jaeger_once(st: &mut St, sink: &UdpSink, batch: Vec<SpanRecord>, split_rules: bool, label: &str) -> Option<Vec<usize>> {
-    let _ = split_rules;
     let mut rep = fastrace_jaeger::JaegerReporter::new(sink.addr, SERVICE).unwrap();
     let expected: Vec<JSpan> = batch.iter().map(j_expected).collect();
     // spans whose own encoding does not fit a datagram are the only permitted omissions
@@ -717,17 +716,26 @@ fn jaeger_once(st: &mut St, sink: &UdpSink, batch: Vec<SpanRecord>, split_rules:
     st.stat("largest_datagram", 0);
     let e = st.stats.entry("largest_datagram".into()).or_insert(0);
     *e = (*e).max(max as u64);
-    if got.len() != want.len() || got.iter().zip(want.iter()).any(|(a, b)| a != *b) {
+    // C20 is about which spans arrive, once and in order: compare identities there; C19 compares
+    // every field
+    let same = |a: &JSpan, b: &JSpan| -> bool {
+        if split_rules {
+            a.trace_low == b.trace_low && a.trace_high == b.trace_high && a.span_id == b.span_id && a.parent == b.parent && a.name == b.name
+        } else {
+            a == b
+        }
+    };
+    if got.len() != want.len() || got.iter().zip(want.iter()).any(|(a, b)| !same(a, b)) {
         // loss on loopback is not the reporter's fault: only a *mismatch* is a violation
         let subseq = {
             let mut it = want.iter();
-            got.iter().all(|g| it.any(|w| *w == g))
+            got.iter().all(|g| it.any(|w| same(w, g)))
         };
         if subseq && got.len() < want.len() {
             let mut missing = vec![];
             let mut gi = 0;
             for (wi, w) in want.iter().enumerate() {
-                if gi < got.len() && got[gi] == **w {
+                if gi < got.len() && same(&got[gi], w) {
                     gi += 1;
                 } else {
                     missing.push(wi);
@@ -735,7 +743,7 @@ fn jaeger_once(st: &mut St, sink: &UdpSink, batch: Vec<SpanRecord>, split_rules:
             }
             return Some(missing);
         } else {
-            let first = got.iter().zip(want.iter()).position(|(a, b)| a != *b).unwrap_or(got.len().min(want.len()));
+            let first = got.iter().zip(want.iter()).position(|(a, b)| !same(a, b)).unwrap_or(got.len().min(want.len()));
             st.viol(
                 if got.len() != want.len() { "span-count" } else { "span-content" },
                 format!(
